@@ -245,6 +245,17 @@ class Prop:
         lines = [impl.unhx(x) for x in inp['lines']]
         hexes = ' '.join(inp['lines'])
         tbq, fe = inp['tbq'], inp['frontend']
+        if (payload['failure'].get('signature') or {}).get('kind') == 'tbq-changes-deliveries':
+            # the same front-end with and without a TagBlockQueue
+            def run(t):
+                if fe in ('iter', 'bytestream', 'queue'):
+                    return deliveries(impl.step('stream %s %d %s' % (fe, t, hexes)))
+                if fe == 'file':
+                    return deliveries(impl.step('file %d %s' % (t, b''.join(l + b'\n' for l in lines).hex())))
+                return deliveries(impl.step('socket %d %s' % (t, b''.join(l + b'\r\n' for l in lines).hex())))
+            a, b = run(0), run(1)
+            print('without a TagBlockQueue %d deliveries, with one %d' % (len(a[0]), len(b[0])))
+            return a[0] == b[0] and not b[2]
         ref = deliveries(impl.step('stream iter %d %s' % (tbq, hexes)))
         if fe in ('iter', 'bytestream', 'queue'):
             d = deliveries(impl.step('stream %s %d %s' % (fe, tbq, hexes)))
